@@ -291,3 +291,166 @@ fn verif_native_search_allocator() {
     }
     println!("NATIVE-SEARCH no failing sequence in {} runs of 12 steps (seed {})", runs, seed);
 }
+
+
+// =====================================================================================
+// API-level search: random short histories of add_type_with_name / add_ref_types over a
+// pool of small schemas, checking executable forms of (a) the contracts proved for
+// add_type_with_name / the add_ref_types_impl tail and (b) the ASSUMED contracts they
+// rest on (convert_schema: older entries untouched, every fresh identifier has an entry;
+// break_cycles: no containment cycle through the batch; finalize: markers computed).
+// A failure on the UNCHANGED tree means an assumed contract is wrong.
+// =====================================================================================
+
+fn schema_pool() -> Vec<(&'static str, serde_json::Value)> {
+    use serde_json::json;
+    vec![
+        ("Leaf", json!({"type": "object", "properties": {"a": {"type": "string"}}, "required": ["a"]})),
+        ("Node", json!({"type": "object", "properties": {"next": {"$ref": "#/definitions/Node"}, "v": {"type": "integer"}}})),
+        ("Tree", json!({"type": "object", "properties": {"left": {"$ref": "#/definitions/Tree"}, "right": {"$ref": "#/definitions/Tree"}}, "required": ["left", "right"]})),
+        ("Kind", json!({"type": "string", "enum": ["a", "b", "c"]})),
+        ("Holder", json!({"type": "object", "properties": {"kind": {"type": "string", "enum": ["x", "y"]}, "n": {"type": "integer", "minimum": 1}}})),
+        ("Pair", json!({"type": "array", "items": [{"type": "integer"}, {"$ref": "#/definitions/Pair"}], "minItems": 2, "maxItems": 2})),
+        ("Alias", json!({"type": "string"})),
+        ("Opt", json!({"type": ["string", "null"]})),
+    ]
+}
+
+fn children_by_value(e: &TypeEntry) -> Vec<TypeId> {
+    let mut out = Vec::new();
+    match &e.details {
+        TypeEntryDetails::Enum(en) => {
+            for v in &en.variants {
+                match &v.details {
+                    VariantDetails::Simple => {}
+                    VariantDetails::Item(t) => out.push(t.clone()),
+                    VariantDetails::Tuple(ts) => out.extend(ts.iter().cloned()),
+                    VariantDetails::Struct(ps) => out.extend(ps.iter().map(|p| p.type_id.clone())),
+                }
+            }
+        }
+        TypeEntryDetails::Struct(s) => out.extend(s.properties.iter().map(|p| p.type_id.clone())),
+        TypeEntryDetails::Newtype(n) => out.push(n.type_id.clone()),
+        TypeEntryDetails::Option(t) | TypeEntryDetails::Array(t, _) => out.push(t.clone()),
+        TypeEntryDetails::Tuple(ts) => out.extend(ts.iter().cloned()),
+        _ => {}
+    }
+    out
+}
+
+fn has_containment_cycle(ts: &TypeSpace, from: u64, to: u64) -> Option<u64> {
+    // 0 = unseen, 1 = on the stack, 2 = done
+    fn dfs(ts: &TypeSpace, id: &TypeId, state: &mut BTreeMap<TypeId, u8>) -> bool {
+        match state.get(id) {
+            Some(1) => return true,
+            Some(2) => return false,
+            _ => {}
+        }
+        state.insert(id.clone(), 1);
+        if let Some(e) = ts.id_to_entry.get(id) {
+            for c in children_by_value(e) {
+                if dfs(ts, &c, state) {
+                    return true;
+                }
+            }
+        }
+        state.insert(id.clone(), 2);
+        false
+    }
+    for i in from..to {
+        let mut state = BTreeMap::new();
+        if dfs(ts, &TypeId(i), &mut state) {
+            return Some(i);
+        }
+    }
+    None
+}
+
+fn check_new_entries(ts: &TypeSpace, old: &Snap, what: &str) -> std::result::Result<(), String> {
+    let new = snap(ts);
+    for (k, e) in &old.ids {
+        if new.ids.get(k) != Some(e) {
+            return Err(format!("{}: identifier {} (handed out earlier) no longer resolves to the same entry", what, k.0));
+        }
+    }
+    for i in old.next..new.next {
+        match new.ids.get(&TypeId(i)) {
+            None => return Err(format!("{}: fresh identifier {} has no entry", what, i)),
+            Some(e) => {
+                if let TypeEntryDetails::Enum(en) = &e.details {
+                    let all_simple = en.tag_type != EnumTagType::Untagged
+                        && !en.variants.is_empty()
+                        && en.variants.iter().all(|v| matches!(v.details, VariantDetails::Simple));
+                    if all_simple && !en.bespoke_impls.contains(&TypeEntryEnumImpl::AllSimpleVariants) {
+                        return Err(format!("{}: fresh enum {} ({}) was never finalized", what, i, en.name));
+                    }
+                }
+            }
+        }
+    }
+    wf(&new).map_err(|e| format!("{}: {}", what, e))
+}
+
+#[test]
+fn verif_native_search_api() {
+    let seed: u64 = std::env::var("VERIF_SEED").ok().and_then(|s| s.parse().ok()).unwrap_or(0);
+    let runs: u64 = std::env::var("VERIF_NATIVE_API_RUNS").ok().and_then(|s| s.parse().ok()).unwrap_or(400);
+    let pool = schema_pool();
+    for run in 0..runs {
+        let mut rng = Rng(0xA0761D6478BD642F ^ seed.wrapping_mul(0xE7037ED1A0B428DB) ^ (run + 1));
+        let mut ts = TypeSpace::default();
+        let mut trace: Vec<String> = Vec::new();
+        for step in 0..4 {
+            let old = snap(&ts);
+            let res: std::result::Result<(), String> = if rng.below(2) == 0 {
+                // a batch of 1-2 definitions (self-contained: references stay inside the batch)
+                let n = 1 + rng.below(2) as usize;
+                let mut batch: Vec<(String, schemars::schema::Schema)> = Vec::new();
+                for _ in 0..n {
+                    let (name, v) = &pool[rng.below(pool.len() as u64) as usize];
+                    if batch.iter().any(|(b, _)| b == name) || old.refs.contains_key(&crate::RefKey::Def(name.to_string())) {
+                        continue;
+                    }
+                    batch.push((name.to_string(), serde_json::from_value(v.clone()).unwrap()));
+                }
+                trace.push(format!("add_ref_types({:?})", batch.iter().map(|(n, _)| n.clone()).collect::<Vec<_>>()));
+                let len = batch.len() as u64;
+                match ts.add_ref_types(batch) {
+                    Err(_) => Ok(()),
+                    Ok(()) => check_new_entries(&ts, &old, "add_ref_types").and_then(|_| {
+                        match has_containment_cycle(&ts, old.next, old.next + len) {
+                            Some(i) => Err(format!("add_ref_types: containment cycle without a Box through identifier {} of the batch", i)),
+                            None => Ok(()),
+                        }
+                    }),
+                }
+            } else {
+                let (name, v) = &pool[rng.below(pool.len() as u64) as usize];
+                // only schemas without $ref can be added on their own
+                if v.to_string().contains("$ref") {
+                    continue;
+                }
+                // (a struct / enum schema without title and without a name hint makes typify panic in
+                // get_type_name(..).unwrap(); that is outside C16, so a hint is always given)
+                let hint = Some(if rng.below(2) == 0 { name.to_string() } else { format!("{}X", name) });
+                trace.push(format!("add_type_with_name({}, {:?})", name, hint));
+                let schema: schemars::schema::Schema = serde_json::from_value(v.clone()).unwrap();
+                match ts.add_type_with_name(&schema, hint) {
+                    Err(_) => Ok(()),
+                    Ok(id) => {
+                        if id.0 >= ts.next_id {
+                            Err("add_type_with_name: returned identifier was never handed out".to_string())
+                        } else {
+                            check_new_entries(&ts, &old, "add_type_with_name")
+                        }
+                    }
+                }
+            };
+            if let Err(e) = res {
+                println!("NATIVE-FAIL seed={} run={} step={} violated=\"{}\" trace={:?}", seed, run, step, e, trace);
+                panic!("ingestion postcondition violated: {}", e);
+            }
+        }
+    }
+    println!("NATIVE-SEARCH-API no failing history in {} runs of up to 4 calls (seed {})", runs, seed);
+}
